@@ -244,6 +244,38 @@ def R2_record(ctx):
         trt = clean(Terms(tp).return_term())
         okq = trt[0] == "cast" and trt[2][0] == "call" and trt[2][1] == "f64::round" and trt[2][2][0][0] == "bin" and trt[2][2][0][1] == "Mul" and ("arg", 1) in (trt[2][2][0][2], trt[2][2][0][3]) and any(x_[0] == "call" and x_[1] == "f64::powi" and x_[2] == (("const", "f64", "10.0"), ("arg", 2)) for x_ in (trt[2][2][0][2], trt[2][2][0][3]))
         ctx.check(okq, "cache:key-rounded-to-nearest-step", "the cache key is not round(value * 10^precision): %s" % short(trt)[:120], tp.where(), detail="(value * 10^precision).round() as i64")
+    # ... and the key the LRU map is addressed with is that rounded pair *component by component* (a vector of the rounded
+    # components, position i = to_precision(key[i], key_precisions[i])) in both get and update: any packing / hashing / mixing of the
+    # components into one word must be injective on the rounded values to be transparent, and the componentwise vector is the
+    # form this rule can read (round 6: `(acc << 32) | rounded as u64` let a negative grade erase the speed bits)
+    FCP = "routee_compass_core::util::cache_policy::float_cache_policy::FloatCachePolicy::"
+    TP = "routee_compass_core::util::cache_policy::float_cache_policy::to_precision"
+    want_elem = ("call", TP, (("at", ("arg", 2), ("i",)), ("at", ("field", ("arg", 1), "key_precisions"), ("i",))))
+
+    def key_elem(body, t, depth=0):
+        t = clean(t)
+        if t[0] == "call" and re.sub(r"\{.*\}$", "", t[1]) in F.bodies and depth < 2 and not re.search(r"Iterator|Itertools", t[1]):
+            kb = F.bodies[re.sub(r"\{.*\}$", "", t[1])]
+            if [clean(x) for x in t[2]] != [("arg", 1), ("arg", 2)] or kb.argc != 2:
+                return None
+            return key_elem(kb, Terms(kb).return_term(), depth + 1)
+        sf = sequence_form(F, body, t)
+        return None if sf is None else sf[0]
+    for fn, meth, role in (("get", "get", "lookup"), ("update", "put", "store")):
+        fb = F.bodies.get(FCP + fn)
+        if fb is None:
+            ctx.bad("cache:key-componentwise:%s" % role, "FloatCachePolicy::%s not found" % fn, None)
+            continue
+        ftm = Terms(fb)
+        sites = [c for c in fb.calls_deep() if (c.callee or "").startswith("lru::LruCache") and c.func.get("method", (c.callee or "").split("::")[-1]) in (meth, "get", "put", "get_mut", "peek", "push", "get_or_insert")]
+        sites = [c for c in sites if (c.callee or "").split("::")[-1] not in ("new", "unbounded")]
+        okk = len(sites) == 1
+        got = None
+        if okk:
+            kt = sites[0].arg_terms[1] if isinstance(sites[0], VirtualCallSite) else ftm.operand(sites[0].args[1], sites[0].bb)
+            got = key_elem(fb, kt)
+            okk = got == want_elem
+        ctx.check(okk, "cache:key-componentwise:%s" % role, "FloatCachePolicy::%s does not address the LRU map with the vector of rounded components [to_precision(key[i], key_precisions[i])]: %s" % (fn, short(got)[:160] if got else "unreadable key (%d map accesses)" % len(sites)), fb.where(), detail="LruCache::%s key = [to_precision(key[i], key_precisions[i])]" % meth)
     for p_ in tree:
         tb = F.bodies[p_]
         ttm = Terms(tb)
